@@ -30,7 +30,12 @@ SituationDefs ==
      urgent_first      |-> \E p \in Procs : qU[p] # <<>> /\ qR[p] # <<>> /\ \E w \in WorkersOf(p) : wpc[w] = "w.pop_u",
      push_before_worker |-> \E p \in Procs : QNonEmpty(p) /\ \A w \in WorkersOf(p) : wpc[w] \in {"unborn", "w.start"},
      two_first_spawns  |-> \E s1 \in Spawners, s2 \in Spawners : s1 # s2 /\ P(s1) = P(s2) /\ spc[s1] = "ens.state" /\ spc[s2] = "ens.state",
-     both_asleep       |-> \E p \in Procs : \A w \in WorkersOf(p) : wpc[w] = "w.wait" /\ lst[w] = "reg"]
+     both_asleep       |-> \E p \in Procs : \A w \in WorkersOf(p) : wpc[w] = "w.wait" /\ lst[w] = "reg",
+     \* two spawns while every worker sleeps (two workers): does the second spawn wake the second worker?
+     second_spawn_all_asleep |-> WPP >= 2 /\ \E s \in Spawners : spc[s] = "sp.notify" /\ sidx[s] >= 2 /\ Len(qU[P(s)]) + Len(qR[P(s)]) >= 2
+                                 /\ \A w \in WorkersOf(P(s)) : wpc[w] = "w.wait",
+     \* (unreachable when every spawn wakes one more sleeper) a worker sleeps un-notified next to queued work while the others are busy
+     idle_worker_sleeps_on_work |-> ~NoIdleLost]
 
 \* one breadth-first run, every situation printed the first time it is reached (per TLC worker); stops when all were seen
 ASSUME TLCSet(1, {})
